@@ -896,6 +896,13 @@ func (c *specCtx) evalCall(n *ECall) Val {
 		}
 		_ = ct
 		return v
+	case "asTime": // the time.Time held by an interface value (zero time when it holds something else or nothing)
+		iv, ok := c.eval(n.Args[0]).(VIface)
+		if !ok {
+			c.fail("asTime needs an interface value")
+		}
+		tt := c.e.lookupTimeType()
+		return VTime{Ite(Eq(iv.Tag, Num(int64(c.e.typeTag(tt)))), iv.Data, Zero)}
 	case "payload": // scalar stored in an interface value (the dynamic value of an int32 boxed into interface{})
 		iv, ok := c.eval(n.Args[0]).(VIface)
 		if !ok {
